@@ -33,8 +33,28 @@ type c01Op struct {
 	Spin    int    `json:"spin,omitempty"` // busy work after the op (parallel mode)
 }
 
+// yieldRegistry is a caller-supplied metric registry whose sample listeners take their time: every AddSample is a
+// schedule point (a real registry locks, formats and writes to a socket there).
+type yieldRegistry struct{ sc *sched }
+type yieldSampleListener struct{ sc *sched }
+
+func (l yieldSampleListener) AddSample(float64, ...string) { l.sc.Point("metric.addsample") }
+func (r yieldRegistry) RegisterDistribution(string, ...string) core.MetricSampleListener {
+	return yieldSampleListener{r.sc}
+}
+func (r yieldRegistry) RegisterTiming(string, ...string) core.MetricSampleListener {
+	return yieldSampleListener{r.sc}
+}
+func (r yieldRegistry) RegisterCount(string, ...string) core.MetricSampleListener {
+	return yieldSampleListener{r.sc}
+}
+func (r yieldRegistry) RegisterGauge(string, core.MetricSupplier, ...string) {}
+func (r yieldRegistry) Start()                                              {}
+func (r yieldRegistry) Stop()                                               {}
+
 type c01Case struct {
-	Subject string    `json:"subject"` // limiter-simple | limiter-precise | precise-direct
+	Registry bool      `json:"registry,omitempty"` // strategies (and the limiter) are built over a metric registry whose listeners are schedule points
+	Subject  string    `json:"subject"` // limiter-simple | limiter-precise | precise-direct
 	Limit   int       `json:"limit"`
 	Traj    []int     `json:"traj,omitempty"` // scripted estimates after the 1st, 2nd ... window (limiter subjects)
 	Workers [][]c01Op `json:"workers"`
@@ -47,6 +67,7 @@ func genC01C(par bool) func(t *rapid.T) c01Case {
 		var c c01Case
 		c.Subject = rapid.SampledFrom([]string{"limiter-simple", "limiter-simple", "limiter-precise", "precise-direct"}).Draw(t, "subject")
 		c.Limit = rapid.IntRange(1, 3).Draw(t, "limit")
+		c.Registry = rapid.IntRange(0, 2).Draw(t, "registry") == 0
 		if c.Subject != "precise-direct" {
 			c.Traj = rapid.SliceOfN(rapid.IntRange(-1, 4), 0, 6).Draw(t, "traj")
 		}
@@ -212,19 +233,32 @@ func runC01C(t *testing.T, c c01Case, par bool) (out kit.Outcome) {
 	switch c.Subject {
 	case "precise-direct":
 		precise = strategy.NewPreciseStrategy(c.Limit)
+		if c.Registry {
+			precise = strategy.NewPreciseStrategyWithMetricRegistry(c.Limit, yieldRegistry{sc})
+		}
 		busyFn = precise.GetBusyCount
 	default:
 		script = &histScript{traj: c.Traj, traj0: c.Limit, clock: &clock, sc: sc, open: map[int64]*porcupine.Operation{}, ops: &ops, opsMu: &opsMu}
 		var st core.Strategy
 		if c.Subject == "limiter-simple" {
 			s := strategy.NewSimpleStrategy(7)
+			if c.Registry {
+				s = strategy.NewSimpleStrategyWithMetricRegistry(7, yieldRegistry{sc})
+			}
 			st, busyFn = s, s.GetBusyCount
 		} else {
 			s := strategy.NewPreciseStrategy(7)
+			if c.Registry {
+				s = strategy.NewPreciseStrategyWithMetricRegistry(7, yieldRegistry{sc})
+			}
 			st, busyFn = s, s.GetBusyCount
 		}
+		var reg core.MetricRegistry
+		if c.Registry {
+			reg = yieldRegistry{sc}
+		}
 		// tiny windows so that they really close during the run (real clock in parallel mode)
-		dl, err := limiter.NewDefaultLimiter(script, 1, 1, 0, 10, st, nil, nil)
+		dl, err := limiter.NewDefaultLimiter(script, 1, 1, 0, 10, st, nil, reg)
 		if err != nil {
 			return kit.Outcome{Harness: err.Error()}
 		}
